@@ -85,7 +85,9 @@ def names(run, model, rule="C18.names"):
 
 
 def find_rule(run, model, rule="C18.find"):
-    fi = model.func("_checkers.find_checker")
+    from ..decomp import loops_view
+
+    fi = loops_view(model, model.func("_checkers.find_checker"))
     flow = get_flow(model, fi)
     run.saw(flow)
     walker = model.func("_checkers._walk_decorator_stack")
@@ -118,10 +120,24 @@ def find_rule(run, model, rule="C18.find"):
                     okc = True
             if not okc and bad is None:
                 bad = "a wrapper counts as the checker under a different condition than `has __preconditions__ or __postconditions__`"
-            rets = [flow.term(n.ast, n) for n in flow.cfg.nodes if n.kind == "return" and n.ast is not None]
-            for rt in rets:
+            rets = [(n, flow.term(n.ast, n)) for n in flow.cfg.nodes if n.kind == "return" and n.ast is not None]
+            # the matches may be collected in a list whose LAST element is returned (``xs[-1] if xs else None``)
+            collected = set()
+            for n in flow.cfg.nodes:
+                for call, c, a in calls_in(n):
+                    if id(n.stmt) in inside and isinstance(call.func, ast.Attribute) and call.func.attr == "append" and len(call.args) == 1 and flow.term(call.args[0], n) == el and isinstance(call.func.value, ast.Name):
+                        collected.add(call.func.value.id)
+            for rn, rt in rets:
                 alts = rt[1] if rt[0] == "phi" else (rt,)
-                if not all(a == ("const", "None") or a == el for a in alts):
+                if all(a == ("const", "None") or a == el for a in alts):
+                    continue
+                e = rn.ast
+                last_of_list = (
+                    isinstance(e, ast.IfExp) and isinstance(e.test, ast.Name) and e.test.id in collected
+                    and isinstance(e.orelse, ast.Constant) and e.orelse.value is None
+                    and isinstance(e.body, ast.Subscript) and isinstance(e.body.value, ast.Name) and e.body.value.id == e.test.id and src_of(e.body.slice) == "-1"
+                )
+                if not last_of_list:
                     bad = bad or "returns %s" % show(strip_sites(rt))
     run.check(bad is None, rule, fi.qual, "walks the whole __wrapped__ chain and returns the innermost object carrying the lists (None if there is none)", bad or "", fi.loc())
     # the walker: yields every object down to the one without __wrapped__
